@@ -104,4 +104,16 @@ CHECKS = {
   "note": "Trusted: Coq kernel + vm_compute; adapters (tatum units). Evenness beyond 64 steps is only tested (thorough tier: 128). "
           "apply_to_melody with start/end windows (ScoreRhythm) and expand=False are not modelled.",
  },
+ "C18": {
+  "text": "Theorems for EVERY mask built with & | ~ > (any nesting, any atoms): what the dispatch asks at chord, melody and note level "
+          "(Mask.__call__ after Mask.child froze the guards of the levels already passed) equals the Spec's guarded evaluation on the right "
+          "ancestors; on level-separable masks the three gates together are exactly the mask's verdict on the note with all its ancestors, so "
+          "the transformer changes exactly what the mask selects; ~ negates a guard on its level; without a mask every element is mapped. "
+          "The dispatch model (beats threaded per melody and per score, plain and filter variants, note/melody/chord transformers) is tied "
+          "to the implementation by tracing transformers on random scores x random masks; pipelines (= composition / append with step tags) "
+          "and the rhythm clause for 7 library transforms are evaluated on the implementation by the oracle. Five library-transform defects repaired.",
+  "note": "Trusted: Coq kernel; adapters; Python set membership. Disjunctions across levels follow the gated reading (DESIGN observation), "
+          "the oracle judges separable masks only. Func masks, DictTransformer and ScoreTransformer are not modelled. Observation: a filter "
+          "transformer that drops every chord raises AttributeError in apply_on_score (None.add_tags).",
+ },
 }
